@@ -214,6 +214,9 @@ func (dw *DiskWriter) HandleChange(kind ChangeKind, p string, fi os.FileInfo, er
 		if err := renameFile(newPath, destPath); err != nil {
 			return errors.Wrapf(err, "failed to rename %s to %s", newPath, destPath)
 		}
+		// rename(2) does nothing when both names already are hard links to
+		// the same inode: do not leave the temporary name behind then.
+		os.Remove(newPath)
 	}
 
 	if isRegularFile {
